@@ -2,8 +2,8 @@ INIT Init
 NEXT Next
 CONSTANTS
   BlockSize = 2
-  ResetFreeOnClear = FALSE
-  Dims <- DimsSmall
+  ResetFreeOnClear = TRUE
+  Dims <- DimsMedium
   NSparse = 2
   NDense = 1
   MaxDepth = 6
